@@ -23,7 +23,14 @@ BRK = {"closed": {"threshold": 2, "window": 8, "recovery": 2, "trip_on": ["T", "
        "probe-again": {"threshold": 1, "window": 8, "recovery": 2, "trip_on": ["T", "U", "P"],
                        "pre": [("fail", "T"), ("tick", 2), ("allow",), ("cancel",)]},
        "probe": {"threshold": 1, "window": 8, "recovery": 2, "trip_on": ["T", "U", "P"],
-                 "pre": [("fail", "T"), ("tick", 2)]}}
+                 "pre": [("fail", "T"), ("tick", 2)]},
+       # class thresholds of 2 for the classes the probe can fail with; the breaker's clock has
+       # another reference point than time.monotonic()
+       "probe-class-thresholds": {"threshold": 2, "window": 8, "recovery": 2, "trip_on": ["T", "U", "P"],
+                                  "class_thresholds": {"T": 2, "P": 2},
+                                  "pre": [("fail", "T"), ("fail", "T"), ("tick", 2)]},
+       "probe-epoch-clock": {"threshold": 1, "window": 8, "recovery": 2, "trip_on": ["T", "U", "P"],
+                             "clock_offset": 1.0e6, "pre": [("fail", "T"), ("tick", 2)]}}
 
 META = {
     "level": "fault_enumeration",
